@@ -239,17 +239,35 @@ Proof.
     + rewrite E2. cbn [app]. eexists sep, _. split; [reflexivity|]. split; assumption.
 Qed.
 
+Lemma lone_empty_false fs : lone_empty fs = false -> fs <> [[]].
+Proof. intros H E. subst fs. discriminate. Qed.
+
+Lemma lone_empty_true fs : lone_empty fs = true -> fs = [[]].
+Proof. destruct fs as [|[|c f] [|g fs]]; try discriminate. reflexivity. Qed.
+
 Lemma go_record sep fs s : csv_valid_sep sep = true -> csv_row_ok fs ->
   csv_go sep MRecord (csv_write_record sep fs ++ s) =
   match csv_go sep MRecord s with COk _ _ recs => COk [] [] (fs :: recs) | e => e end.
 Proof.
-  intros Hv (H1 & H2 & Hall). unfold csv_write_record. rewrite <- app_assoc. cbn [app].
-  destruct (record_head sep fs s Hv H1 H2) as (c & r & E & A & B).
-  pose proof (go_fields sep fs s Hv H1 Hall) as G. rewrite E in *.
-  rewrite (csv_go_nocr _ _ _ _ B). cbn [csv_step]. rewrite A.
-  rewrite (csv_go_nocr _ _ _ _ B) in G. cbn [csv_step] in G. rewrite G.
-  destruct fs as [|f fs]; [congruence|]. cbn [whole_record].
-  destruct (csv_go sep MRecord s); reflexivity.
+  intros Hv (H1 & Hall). destruct (valid_sep_facts sep Hv) as (S1 & S2 & S3).
+  unfold csv_write_record. destruct (lone_empty fs) eqn:El.
+  - (* the quoted empty record *)
+    apply lone_empty_true in El. subst fs. cbn [app].
+    rewrite csv_go_nocr by reflexivity. cbn [csv_step]. change (c_dq =? c_nl) with false. cbv iota.
+    unfold csv_field_start. change (c_dq =? c_dq) with true. cbv iota.
+    rewrite csv_go_nocr by reflexivity. cbn [csv_step]. change (c_dq =? c_dq) with true. cbv iota.
+    rewrite csv_go_nocr by reflexivity. cbn [csv_step]. change (c_nl =? c_dq) with false. cbv iota.
+    assert (N1 : (c_nl =? sep) = false) by (rewrite N.eqb_sym; exact S3). rewrite N1.
+    change (c_nl =? c_nl) with true. cbv iota.
+    destruct (csv_go sep MRecord s); reflexivity.
+  - pose proof (lone_empty_false fs El) as H2.
+    rewrite <- app_assoc. cbn [app].
+    destruct (record_head sep fs s Hv H1 H2) as (c & r & E & A & B).
+    pose proof (go_fields sep fs s Hv H1 Hall) as G. rewrite E in *.
+    rewrite (csv_go_nocr _ _ _ _ B). cbn [csv_step]. rewrite A.
+    rewrite (csv_go_nocr _ _ _ _ B) in G. cbn [csv_step] in G. rewrite G.
+    destruct fs as [|f fs]; [congruence|]. cbn [whole_record].
+    destruct (csv_go sep MRecord s); reflexivity.
 Qed.
 
 Lemma go_records sep rows : csv_valid_sep sep = true -> Forall csv_row_ok rows ->
@@ -362,8 +380,8 @@ Theorem csv_objects_roundtrip sep header rows :
 Proof.
   intros Hv Hnd Hh Hne Hlen Hok Hbom.
   exists (csv_write sep (header :: rows)). split.
-  - unfold csv_encode. unfold obj_doc at 1. rewrite Hv. fold (obj_doc header rows).
-    rewrite (objects_rows header rows Hnd Hne Hh Hlen). reflexivity.
+  - unfold csv_encode. unfold obj_doc at 1. fold (obj_doc header rows).
+    rewrite (objects_rows header rows Hnd Hne Hh Hlen), Hv. reflexivity.
   - unfold csv_decode. rewrite Hbom.
     rewrite (csv_rows_roundtrip sep (header :: rows) Hv Hok); [reflexivity|].
     unfold rectangular. cbn [same_length]. rewrite Nat.eqb_refl. cbn [andb].
